@@ -4,7 +4,7 @@ from harness.core import Prop
 from harness import jsonvals as jv
 from harness.props import conn_common as cm
 
-IDS = [0, 1, 2, 7, 'a', '', 'abc', 1.5, 10 ** 20, -3, True]
+IDS = [0, 1, 2, 7, 'a', '', 'abc', 1.5, 10 ** 20, -3, True, float('inf'), float('-inf')]      # (1e999 reads as inf)
 
 
 def member(rng, pname, kind):
